@@ -3,6 +3,7 @@ package engine
 import (
 	"io/ioutil"
 	"os"
+	"sync"
 
 	"github.com/bmeg/grip/gdbi"
 	"github.com/bmeg/grip/kvi"
@@ -11,10 +12,11 @@ import (
 
 // NewManager creates a resource manager
 func NewManager(workDir string) gdbi.Manager {
-	return &manager{[]kvi.KVInterface{}, []string{}, workDir}
+	return &manager{kvs: []kvi.KVInterface{}, paths: []string{}, workDir: workDir}
 }
 
 type manager struct {
+	mu      sync.Mutex // step goroutines of one query share the manager
 	kvs     []kvi.KVInterface
 	paths   []string
 	workDir string
@@ -24,12 +26,16 @@ func (bm *manager) GetTempKV() kvi.KVInterface {
 	td, _ := ioutil.TempDir(bm.workDir, "kvTmp")
 	kv, _ := badgerdb.NewKVInterface(td, kvi.Options{})
 
+	bm.mu.Lock()
+	defer bm.mu.Unlock()
 	bm.kvs = append(bm.kvs, kv)
 	bm.paths = append(bm.paths, td)
 	return kv
 }
 
 func (bm *manager) Cleanup() {
+	bm.mu.Lock()
+	defer bm.mu.Unlock()
 	for _, c := range bm.kvs {
 		c.Close()
 	}
